@@ -475,7 +475,11 @@ func genCase(r *common.Rng, c dcfg, kind string, w *bufio.Writer) {
 		}
 		lf := lastFFC
 		if ffcLeft > 0 {
+			// sometimes LastFFCTime ahead of TimeOn (the camera's millisecond uptime counter wrapped after an FFC): still inside the period
 			lf = ton - r.Pick64(0, sec, 10*sec-1, 5*sec)
+			if r.Chance(20) {
+				lf = ton + r.Pick64(1, 3*sec)
+			}
 			if lf < 0 {
 				lf = 0
 			}
